@@ -43,10 +43,20 @@ func runC15(c *Ctx) {
 	}
 
 	// ---- R15.1
-	if fn := p.Func(pkg + "customController.EnsureRoutes"); fn == nil {
+	if outer := p.Func(pkg + "customController.EnsureRoutes"); outer == nil {
 		c.Unresolved("R15.1", "customController.EnsureRoutes")
 	} else {
-		for _, call := range CallsIn(fn, "customController.executeLuaForCanary") {
+		// the script run may sit in EnsureRoutes or in a helper its loop body was extracted into
+		var luaCalls []ssa.CallInstruction
+		for _, hf := range samePkgClosure(p, outer) {
+			if strings.HasSuffix(FuncName(hf), ".executeLuaForCanary") {
+				continue
+			}
+			luaCalls = append(luaCalls, CallsIn(hf, "customController.executeLuaForCanary")...)
+		}
+		fn := outer
+		for _, call := range luaCalls {
+			fn := call.Parent()
 			arg := call.Common().Args[1]
 			// the argument is a load of a local cell that json.Unmarshal filled
 			var cell *ssa.Alloc
@@ -85,11 +95,30 @@ func runC15(c *Ctx) {
 				ifs(!ok, "the Data argument is not (only) the value decoded from annotations["+key+"] before the call: steps would accumulate on the live object"))
 		}
 		// the snapshot is taken before the first script run when absent
+		absent := FFalse(func(t *Term) bool {
+			return t.Op == "extract" && t.Idx == 1 && t.Args[0].Op == "lookup" && isSnapshotLookup(t.Args[0])
+		})
 		for _, call := range CallsIn(fn, "customController.storeObject") {
 			fs := FactsAtInstr(call.(ssa.Instruction))
-			ok := HasFact(fs, FFalse(func(t *Term) bool {
-				return t.Op == "extract" && t.Idx == 1 && t.Args[0].Op == "lookup" && isSnapshotLookup(t.Args[0])
-			}))
+			ok := HasFact(fs, absent)
+			if !ok {
+				// the guard may have moved into storeObject: then every write in it is under 'annotation absent'
+				if so := call.Common().StaticCallee(); so != nil && so.Blocks != nil {
+					isW := apiWrites(p)
+					writes, guarded := 0, 0
+					for _, b := range so.Blocks {
+						for _, in := range b.Instrs {
+							if isW(in) {
+								writes++
+								if HasFact(FactsAtInstr(in), absent) {
+									guarded++
+								}
+							}
+						}
+					}
+					ok = writes > 0 && writes == guarded
+				}
+			}
 			c.Ob("R15.1", "customController.EnsureRoutes#snapshot-once", call.Pos(), ok, "the snapshot is taken only when none exists yet", ifs(!ok, "storeObject not under 'annotation absent': a later step would snapshot an already modified object")).WithFacts(fs)
 		}
 	}
@@ -182,7 +211,9 @@ func runC15(c *Ctx) {
 	} else {
 		for _, u := range CallsIn(fn, "client.Writer.Update") {
 			reach, _ := CanReach(Entry(fn), func(in ssa.Instruction) bool { return in == u.(ssa.Instruction) }, ReachOpts{CutEdge: func(b *ssa.BasicBlock, k int) bool {
-				return EdgeFactMatches(b, k, FCmp("!=", MCall("util.DumpJSON"), MCall("util.DumpJSON"))) || EdgeFactMatches(b, k, FFalse(MCall("reflect.DeepEqual")))
+				// one disjunction, so that a predicate helper ("is the configuration applied?") whose
+				// false outcome rests on any of the three differences is recognised
+				return EdgeFactMatches(b, k, FOr(FCmp("!=", MHas(MCall("util.DumpJSON")), MHas(MCall("util.DumpJSON"))), FFalse(MCall("reflect.DeepEqual"))))
 			}})
 			c.Ob("R15.3", "compareAndUpdateObject#write-on-difference", u.Pos(), !reach, "the object is updated only if spec, annotations or labels differ", ifs(reach, "Update reachable although nothing differs (the provider would never report 'verified')"))
 		}
